@@ -18,9 +18,17 @@ import os
 import vlib
 
 KNOWN_TEXT = {
-    "F-C02-1": "compile errors 'unreferenced alias or let clause' are reported in map-iteration order "
+    "F-C02-1": "compile errors 'unreferenced alias or let clause' are appended in map-iteration order "
                "(internal/core/compile popScope): err.Error(), errors.Errors(err) and the error quoted by exporters "
                "differ between runs of the same input (cmd/cue's sorted errors.Print output does not)",
+    "F-C02-2": "nesting that bypasses the parser's maxNestLevel (field chains a: a: a: ..., nested comprehension bodies): "
+               "about 300000 levels end in a fatal stack overflow in astutil.Resolve inside parser.ParseFile",
+    "F-C02-3": "b: <=3, b: {if false {x: 1}}: unbounded recursion validateValue -> BinOp -> Vertex.Finalize -> unify "
+               "in the evaluator (fatal stack overflow)",
+    "F-C02-4": "BuildFile on the partial AST returned with a parse error panics 'not a string label' "
+               "(malformed import path that is referenced)",
+    "F-C02-5": "h: list.FlattenN([list.Sort(h, list.Ascending), 1], 0): self reference through list.Sort recurses "
+               "without bound in the evaluator (fatal stack overflow)",
 }
 
 
